@@ -47,11 +47,23 @@ UNIT.spec_files = list(UNIT.spec_files) + ['helpers.rs']
 UNIT.functions.append('RustType::is_vec')
 
 
-def native(workdir):
+def _search():
+    # the unit serves two properties: a failing input is looked for with the stand-in of the property being checked
+    import os
+    if os.environ.get('VERIF_PID') == 'C12':
+        import helpersearch
+        return helpersearch
     import typesearch
-    return typesearch.native(workdir)
+    return typesearch
+
+
+def native(workdir):
+    return _search().native(workdir)
 
 
 def replay_args(inp):
+    if 'trigger' in inp:
+        import helpersearch
+        return helpersearch.replay_args(inp)
     import typesearch
     return typesearch.replay_args(inp)
